@@ -26,7 +26,13 @@ static void build(vf::Plan &plan, const vf::Opts &o)
                         "reference size for assume_valid is the substitute_invalid size (the measuring pass is mode-independent)"};
     RunOpts all, prim;
     prim.primary_only = true;
+    // the ASan+UBSan build of the thorough tier runs the quick bounds (~8x slower per case); the plain build the large ones
+#ifdef VF_ASAN
+    bool T = false;
+    (void)o;
+#else
     bool T = o.thorough();
+#endif
     add_both(plan, strf("utf8: A8^<=%u all routes", T ? 5u : 4u), ref::E8, A8, T ? 5 : 4, false, all);
     add_seq_stage(plan, strf("utf8: A8^%u primary routes", T ? 6u : 5u), ref::E8, A8, T ? 6 : 5, true, prim);
     if (T) add_seq_stage(plan, "utf8: core^8 primary routes", ref::E8, A8CORE, 8, true, prim);
